@@ -105,7 +105,7 @@ theorem applyMetrics_inv (c : Cfg) (B : Nat) (hB : 0 < B) :
 
 /-- **for every history of checks**: every `checkRequirements` call of the weighted checker leaves the statistics of
     every requirement consistent (given non-negative measured times, which `perf_counter` guarantees) -/
-theorem weightedCheck_inv (c : Cfg) (B : Nat) (hB : 0 < B) (st : State) (reqs : List Req) (fals : Nat → Bool)
+theorem weightedCheck_inv (c : Cfg) (B : Nat) (hB : 0 < B) (st : State) (reqs : List Req) (fals : Nat → Option Bool)
     (times : List Rat) (h : ∀ s ∈ st, RSInv B s) (ht : ∀ t ∈ times, 0 ≤ t) :
     ∀ s ∈ (weightedCheck c B st reqs fals times).1, RSInv B s := by
   unfold weightedCheck
